@@ -49,6 +49,7 @@ Local Arguments put_bundler {P D}.
 Local Arguments any_bundling {P D}.
 Local Arguments add_status {P D}.
 Local Arguments request_pause {P D}.
+Local Arguments request_pause_in_task {P D}.
 Local Arguments finish_read {P D}.
 Local Arguments mark_cached {P D}.
 Local Arguments exec_cmd {P D}.
@@ -207,10 +208,15 @@ Proof.
   unfold request_pause, cancel_task. intros H.
   repeat bm_hyp H; inversion H; subst; clear H; use_Pp; pp_close.
 Qed.
+Lemma request_pause_in_task_Pp (s : st) d s' e o : request_pause_in_task s d = (s', e, o) -> Pp s s'.
+Proof.
+  unfold request_pause_in_task. destruct (request_pause s d) as [[s1 e1] o1] eqn:E.
+  apply request_pause_Pp in E. intros H; inversion H; subst; clear H. destruct (resumable s); exact E.
+Qed.
 Lemma exec_cmd_Pp (s : st) m s' c o : exec_cmd dev s m = (s', c, o) -> Pp s s'.
 Proof.
   unfold exec_cmd. intros H. destruct (mcmd m) eqn:Em.
-  6: { destruct (request_pause s defer) as [[s1 e] o1] eqn:E. inversion H; subst. eapply request_pause_Pp; eassumption. }
+  6: { destruct (request_pause_in_task s defer) as [[s1 e] o1] eqn:E. inversion H; subst. eapply request_pause_in_task_Pp; eassumption. }
   20: { destruct (call_pausables dev s MResume) as [[s1 e] o1] eqn:E. inversion H; subst. eapply call_pausables_Pp; eassumption. }
   all: unfold dcall, finish_read in H.
   all: repeat bm_hyp H; inversion H; subst; clear H; norm_hyps; pp_close.
